@@ -63,15 +63,20 @@ def run_live(ctx, binary, data, n):
         if os.path.exists(fn):
             fbytes, has = open(fn, "rb").read(), True
             break
-    return dict(in_len=len(data), in_sha=sha(data), out_len=len(out), out_sha=sha(out), file_len=len(fbytes), file_sha=sha(fbytes), has_file=has,
+    return dict(pre_len=0, pre_kept=True, in_len=len(data), in_sha=sha(data), out_len=len(out), out_sha=sha(out), file_len=len(fbytes), file_sha=sha(fbytes), has_file=has,
                 ret=ret, small=False, pause=False, chunk=len(data), midnight=day1 != day2, live=True, live_complete=while_open == data,
                 live_len=len(while_open), **{"in": [], "out": [], "file": []})
 
 
-def run_logger(ctx, binary, data, seed, chunk, pause_ms, n, paced=False):
+def run_logger(ctx, binary, data, seed, chunk, pause_ms, n, paced=False, pre=b""):
     d = ctx.path("run%d" % n)
     os.makedirs(d)
     logdir = os.path.join(d, "rec")
+    if pre:
+        # the program is restarted on the same day: the day's record already exists and is continued
+        os.makedirs(logdir)
+        with open(os.path.join(logdir, "rtcmlogger.%s.rtcm" % datetime.date.today().isoformat()), "wb") as f:
+            f.write(pre)
     cfg = os.path.join(d, "cfg.json")
     with open(cfg, "w") as f:
         json.dump({"log_events": False, "message_log_directory": logdir}, f)
@@ -116,8 +121,11 @@ def run_logger(ctx, binary, data, seed, chunk, pause_ms, n, paced=False):
         if os.path.exists(fn):
             fbytes, has = open(fn, "rb").read(), True
             break
+    pre_kept = fbytes[:len(pre)] == pre
+    if pre_kept:
+        fbytes = fbytes[len(pre):]
     small = len(data) <= 1500
-    ev = dict(in_len=len(data), in_sha=sha(data), out_len=len(out), out_sha=sha(out), file_len=len(fbytes), file_sha=sha(fbytes), has_file=has,
+    ev = dict(pre_len=len(pre), pre_kept=pre_kept, in_len=len(data), in_sha=sha(data), out_len=len(out), out_sha=sha(out), file_len=len(fbytes), file_sha=sha(fbytes), has_file=has,
               ret=ret, small=small, pause=bool(pause_ms), chunk=chunk, midnight=day1 != day2, live=False, live_complete=True, live_len=len(out),
               **{"in": list(data) if small else [], "out": list(out) if small else [], "file": list(fbytes) if small else []})
     return ev
@@ -157,6 +165,13 @@ def run(ctx, replay):
         data = bytes(rng.getrandbits(8) for _ in range(nblk * rng.randint(150, 900)))
         jobs.append((data, rng.getrandbits(30), -(len(data) // nblk), 60))
     events = []
+    # restarts on the same day: the day's record file already holds an earlier run's bytes
+    for k, (npre, nin) in enumerate([(700, 300), (block + 5, 2 * block), (1, 0)] + ([(3 * block, 1), (10, block)] if ctx.thorough() else [])):
+        pre = bytes(rng.getrandbits(8) for _ in range(npre))
+        data = bytes(rng.getrandbits(8) for _ in range(nin))
+        ev = run_logger(ctx, binary, data, rng.getrandbits(30), max(1, nin), 0, 900 + k, pre=pre)
+        if not ev["midnight"]:
+            events.append(ev)
     for n, (data, seed, chunk, pause) in enumerate(jobs):
         if chunk < 0:      # fixed-size paced chunks
             ev = run_logger(ctx, binary, data, seed, -chunk, pause, n, paced=True)
@@ -185,7 +200,8 @@ def run(ctx, replay):
     ctx.sample({k: v for k, v in events[-1].items() if k not in ("in", "out", "file")})
     for i in res["bad"]:
         e = events[i - 1]
-        rec = dict(kind="pass-through-withheld-while-stdin-open" if e["live"] and not e["live_complete"] else
+        rec = dict(kind="earlier-record-of-the-day-lost" if not e["pre_kept"] else
+                   "pass-through-withheld-while-stdin-open" if e["live"] and not e["live_complete"] else
                    "record-file-incomplete" if e["file_len"] < e["in_len"] else ("stdout-differs" if e["out_sha"] != e["in_sha"] else "other"),
                    forced_schedule=e["pause"], ret=e["ret"][:20])
         ctx.violation(rec, dict(event={k: v for k, v in e.items() if k not in ("in", "out", "file")}))
@@ -193,7 +209,7 @@ def run(ctx, replay):
         level="model_checking",
         rule="one case = (input bytes, chunking/timing of stdin, schedule) through the built rtcmlogger binary over OS pipes, exit awaited, record file read afterwards; sizes around "
              "the 8096-byte block (0, 1, 17, 8095, 8096, 8097, 3x8096+5, 12 MB; thorough: up to 40 MB), binary content; schedule: the Logger.tla counterexample forced with "
-             "VERIF_PAUSE_rec.write (recorder held before its write while the copy loop reaches EOF and main exits) free-running, and 'live' runs in which a burst (incl. exactly 1 and 2 blocks) is followed by silence on an open stdin and must appear on stdout within 8 s; non-trivial = non-empty input",
+             "VERIF_PAUSE_rec.write (recorder held before its write while the copy loop reaches EOF and main exits) free-running, restarts on the same day (the day's record file already holds an earlier run's bytes and must keep them in front of the new ones), and 'live' runs in which a burst (incl. exactly 1 and 2 blocks) is followed by silence on an open stdin and must appear on stdout within 8 s; non-trivial = non-empty input",
         assumptions=["equality is judged on length and SHA-1 for every run and byte by byte for inputs up to 1500 bytes",
                      "the pause only delays the recorder: on a correct implementation it merely slows the exit",
                      "runs during which the local date changed are dropped"],
